@@ -21,6 +21,7 @@ from harness import common as C
 from harness.common import cbool, clist
 
 PID = "C06"
+BASE_IDS = {"ble.BLE", "dot15d4.Dot15d4", "zigbee.Zigbee", "rf4ce.RF4CE", "esb.ESB", "unifying.Unifying", "phy.Phy"}
 DOMAIN_KEYS = ["ble", "dot15d4", "esb", "unifying", "phy"]
 RES = {"ok": "ROk", "false": "RFalse", "UnsupportedDomain": "(RRaise EUnsupportedDomain)",
        "UnsupportedCapability": "(RRaise EUnsupportedCapability)"}
@@ -408,6 +409,25 @@ def run(ctx):
     oenvs = run_envs(ctx, gen.ops_all, s_op, [c for c in corpus if c.get("kind") == "op"] + wit_op, False)
     nospec_ops = {p["id"] for p, has in zip(gen.ops_all, op_has_spec) if not has}
     oenvs = [e for e in oenvs if e["id"] not in nospec_ops]      # operations outside Spec.v: listed in the evidence, not run
+    for e in oenvs:
+        e["pre"] = []
+    # sequences: every specified operation preceded by each other public operation of the same connector,
+    # on the interface that advertises everything EXCEPT what the operation needs (so the preceding call
+    # succeeds and may prime caches) -- the guard must still hold; thorough: also length 3 and "everything"
+    ALL32 = (1 << 32) - 1
+    n_single = len(oenvs)
+    for i, p in enumerate(gen.ops_all):
+        if p["id"] in nospec_ops:
+            continue
+        prefixes = [m for m in tr.get("prefix_methods", {}).get("%s.%s" % (p["domain"], p["class"]), []) if m != p["method"]]
+        mc = ss_op[i][0]
+        seqs = [[m] for m in prefixes]
+        if ctx.thorough:
+            seqs += [[m, m2] for m in prefixes for m2 in (p.get("state_reads") and prefixes or prefixes[:3]) if m2 != m][:120]
+        for pre_ in seqs:
+            for cm in ([ALL32 & ~mc] + ([ALL32] if ctx.thorough else [])):
+                oenvs.append({"i": i, "id": p["id"], "cmds": cm, "caps": 0, "dom": True, "kw": [], "pre": pre_,
+                              "seed": ctx.rng.randrange(1 << 30), "why": "sequence"})
     dis = di_cases(ctx, [c for c in corpus if c.get("kind") == "di"])
     ctx.log("cases: %d predicate interfaces, %d constructor runs, %d operation runs, %d DeviceInfo" % (len(penvs), len(cenvs), len(oenvs), len(dis)))
     # several driver processes in parallel (each imports scapy once)
@@ -421,7 +441,8 @@ def run(ctx):
         jobs.append(("preds", part, {"mode": "eval", "preds": [[e["dk"], e["cmds"], e["caps"], e["seed"]] for e in part]}))
     for part in chunk(cenvs, NP):
         jobs.append(("ctors", part, {"mode": "eval", "ctors": [[e["id"], e["cmds"], e["caps"], e["dom"], e["seed"], e["kw"]] for e in part]}))
-    jobs.append(("ops", oenvs, {"mode": "eval", "ops": [[e["id"], e["cmds"], e["caps"], e["seed"]] for e in oenvs]}))
+    for part in chunk(oenvs, NP):
+        jobs.append(("ops", part, {"mode": "eval", "ops": [[e["id"], e["cmds"], e["caps"], e["seed"], e["pre"]] for e in part]}))
     jobs.append(("di", dis, {"mode": "eval", "di": [[e["words"], e["adds"], e["domain"], e["cap"]] for e in dis]}))
     with cf.ThreadPoolExecutor(max_workers=14) as ex:
         futs = [ex.submit(C.run_impl, "C06.py", j[2]) for j in jobs]
@@ -430,6 +451,29 @@ def run(ctx):
             if len(r) != len(j[1]):
                 raise C.CheckBroken("driver returned %d results for %d %s cases" % (len(r), len(j[1]), j[0]))
             for e, o in zip(j[1], r):
+                e["obs"] = o
+    # sequences of operations on role connectors (second round: on interfaces where the constructor
+    # completed): start / stop / the role's own argument-less operations that consult a predicate
+    import itertools
+    senvs = []
+    for i, p in enumerate(gen.ctors_all):
+        alpha = (p.get("seq_methods") or [])[:4]
+        if not alpha or p["id"] in BASE_IDS:
+            continue
+        ok_masks = sorted({(e["cmds"], e["caps"]) for e in cenvs if e["i"] == i and not e["kw"] and e["dom"]
+                           and "skip" not in e["obs"] and e["obs"]["r"] == "ok"},
+                          key=lambda m: (bin(m[0]).count("1"), m))[:(4 if ctx.thorough else 2)]
+        en = tr["enums"][p["domain"]]
+        ss = (1 << en["Start"]) | (1 << en["Stop"])
+        words = [list(w) for n in ((2, 3) if len(alpha) <= 3 or ctx.thorough else (2,)) for w in itertools.product(alpha, repeat=n)]
+        for cm, cp in ok_masks:
+            for w in words:
+                senvs.append({"i": i, "id": p["id"], "cmds": cm | ss, "caps": cp, "seq": w, "seed": ctx.rng.randrange(1 << 30)})
+    with cf.ThreadPoolExecutor(max_workers=NP) as ex:
+        parts = chunk(senvs, NP)
+        futs = [ex.submit(C.run_impl, "C06.py", {"mode": "eval", "seqs": [[e["id"], e["cmds"], e["caps"], e["seed"], e["seq"]] for e in part]}) for part in parts]
+        for part, fu in zip(parts, futs):
+            for e, o in zip(part, fu.result()["seqs"]):
                 e["obs"] = o
     skipped_ctor = [e for e in cenvs if "skip" in e["obs"]]
     cenvs = [e for e in cenvs if "skip" not in e["obs"]]
@@ -495,7 +539,7 @@ def run(ctx):
     # constructors / operations
     for kind, envs, bad in (("ctor", cenvs, bad_c_spec), ("op", oenvs_run, bad_o_spec)):
         done = set()
-        for b in sorted(bad, key=lambda b: bin(envs[b]["cmds"]).count("1") + bin(envs[b]["caps"]).count("1")):
+        for b in sorted(bad, key=lambda b: (len(envs[b].get("pre", [])), bin(envs[b]["cmds"]).count("1") + bin(envs[b]["caps"]).count("1"))):
             e = envs[b]
             if e["id"] in done:
                 continue
@@ -504,9 +548,37 @@ def run(ctx):
             what += " on an interface that does not advertise what it needs: ended with %s after transmitting %s" % (e["obs"]["r"], e["obs"]["sent"] or "nothing")
             if e.get("kw"):
                 what += " (constructor called with optional argument(s) %s)" % ", ".join(e["kw"])
-            nviol += ctx.violation(what, {"kind": kind, "id": e["id"], "cmds": e["cmds"], "caps": e["caps"], "dom": e["dom"], "seed": e["seed"], "kw": e.get("kw", [])},
+            if e.get("pre"):
+                what += " (called on the same connector after %s)" % ", ".join(x + "()" for x in e["pre"])
+            nviol += ctx.violation(what, {"kind": kind, "id": e["id"], "cmds": e["cmds"], "caps": e["caps"], "dom": e["dom"], "seed": e["seed"], "kw": e.get("kw", []), "pre": e.get("pre", [])},
                                    expected="UnsupportedDomain / UnsupportedCapability%s and no domain message" % (" or a failure report" if kind == "op" else ""),
                                    observed=e["obs"])
+    # "no command outside the advertised mask is ever transmitted": role constructors and sequences of
+    # operations on constructed role connectors
+    def outside(cmds, o):
+        return [n for n, b in zip(o.get("sent", []), o.get("bits", [])) if b >= 0 and not (cmds >> b) & 1]
+    o2_done = set()
+    for e in sorted(cenvs, key=lambda e: (bin(e["cmds"]).count("1"), len(e["kw"]))):
+        if e["id"] in BASE_IDS or e["id"] in o2_done or not e["dom"]:
+            continue
+        bad_ = outside(e["cmds"], e["obs"])
+        if bad_:
+            o2_done.add(e["id"])
+            nviol += ctx.violation("constructor %s transmitted %s, command(s) the interface does not advertise" % (e["id"], bad_),
+                                   {"kind": "ctor", "id": e["id"], "cmds": e["cmds"], "caps": e["caps"], "dom": True, "seed": e["seed"], "kw": e["kw"]},
+                                   expected="only advertised commands are transmitted", observed=e["obs"])
+    for e in sorted(senvs, key=lambda e: (len(e["seq"]), bin(e["cmds"]).count("1"))):
+        if e["id"] in o2_done:
+            continue
+        for k, st in enumerate(e["obs"]["steps"]):
+            bad_ = outside(e["cmds"], st)
+            if bad_:
+                o2_done.add(e["id"])
+                nviol += ctx.violation("%s: after %s, %s() transmitted %s, command(s) the interface does not advertise"
+                                       % (e["id"], [x + "()" for x in e["seq"][:k]] or "construction", e["seq"][k], bad_),
+                                       {"kind": "seq", "id": e["id"], "cmds": e["cmds"], "caps": e["caps"], "seed": e["seed"], "seq": e["seq"][:k + 1]},
+                                       expected="only advertised commands are transmitted", observed=e["obs"]["steps"][:k + 1])
+                break
     # DeviceInfo
     di_bad_cap, di_bad_split = [], []
     for e in dis:
@@ -562,6 +634,10 @@ def run(ctx):
         "optional_arguments_supplied": sorted({n for e in cenvs for n in e.get("kw", [])}),
         "constructors_completed_at_least_once": len({e["id"] for e in cenvs if e["obs"]["r"] == "ok"}),
         "operation_runs": len(oenvs), "operation_results": op_res,
+        "operation_runs_after_another_operation": sum(1 for e in oenvs if e.get("pre")),
+        "role_connector_sequences": len(senvs),
+        "role_connector_sequence_steps": sum(len(e["obs"]["steps"]) for e in senvs),
+        "operations_reading_connector_state_in_a_condition": {p["id"]: p["state_reads"] for p in gen.ops_all if p.get("state_reads")},
         "operations_that_transmitted_at_least_once": len(ops_sent),
         "deviceinfo_cases": len(dis),
         "uncovered_branches": sorted({p["id"] for p in gen.ops} - set(ops_sent)) and
@@ -637,8 +713,11 @@ def replay(payload):
         r = C.run_impl("C06.py", {"mode": "eval", "ctors": [[case["id"], case["cmds"], case["caps"], case.get("dom", True), case.get("seed", 1), case.get("kw", [])]]})
         print("implementation now:", r["ctors"][0], "| expected:", payload.get("expected"))
     elif k == "op":
-        r = C.run_impl("C06.py", {"mode": "eval", "ops": [[case["id"], case["cmds"], case["caps"], case.get("seed", 1)]]})
+        r = C.run_impl("C06.py", {"mode": "eval", "ops": [[case["id"], case["cmds"], case["caps"], case.get("seed", 1), case.get("pre", [])]]})
         print("implementation now:", r["ops"][0], "| expected:", payload.get("expected"))
+    elif k == "seq":
+        r = C.run_impl("C06.py", {"mode": "eval", "seqs": [[case["id"], case["cmds"], case["caps"], case.get("seed", 1), case["seq"]]]})
+        print("implementation now:", r["seqs"][0], "| expected:", payload.get("expected"))
     elif k == "di":
         r = C.run_impl("C06.py", {"mode": "eval", "di": [[case["words"], case["adds"], case["domain"], case["cap"]]]})
         print("implementation now [has_domain, caps, cmds, has_domain_cap]:", r["di"][0], "| expected:", payload.get("expected"))
